@@ -513,7 +513,19 @@ func c17Concurrent(c *core.Ctx, idx int) {
 			if dp := s.db.GetDefaultSnapshotPath(); !strings.HasPrefix(dp, path+"-") {
 				c.Violationf("C17 default snapshot path does not name the database", nil, "%q for database %q", dp, path)
 			}
-			_, _, err := s.db.Snapshot(sp)
+			var err error
+			if n%3 == 2 {
+				// the stream route, into a writer that takes its time (a peer on the network): writers commit meanwhile
+				f, ferr := os.Create(sp)
+				if ferr != nil {
+					continue
+				}
+				err = s.db.StreamToWriter(&slowWriter{w: f})
+				_ = f.Close()
+				c.Count("streams_to_a_slow_writer", 1)
+			} else {
+				_, _, err = s.db.Snapshot(sp)
+			}
 			reads.Add(1)
 			c.Eval()
 			if err != nil {
@@ -695,4 +707,26 @@ func blockedSummary(dumpText string) string {
 		}
 	}
 	return strings.Join(out, "\n")
+}
+
+// slowWriter passes the data on in small pieces with pauses in between.
+type slowWriter struct {
+	w io.Writer
+	n int
+}
+
+func (s *slowWriter) Write(p []byte) (int, error) {
+	total := 0
+	for len(p) > 0 {
+		k := min(len(p), 8192)
+		n, err := s.w.Write(p[:k])
+		total += n
+		if err != nil {
+			return total, err
+		}
+		p = p[k:]
+		s.n++
+		time.Sleep(2 * time.Millisecond)
+	}
+	return total, nil
 }
